@@ -8,44 +8,44 @@ HERE = os.path.dirname(os.path.dirname(os.path.abspath(__file__)))
 T = {
     'C01': ('exhaustive enumeration of all phased Pauli pairs N<=3 (N<=5 thorough, vectorised) + Hypothesis random pairs/chains vs table-driven and dense oracles',
             'All 16^N*16 ordered pairs for N<=3 are enumerated against a multiplication table derived from the 2x2 matrices and against Kronecker products; random pairs to N=12, chains to 60 factors, associativity, squares, acq_mat, polynomial products; both back ends. Exhaustive for the N stated, sampled beyond.'),
-    'C02': ('exhaustive N<=2 (generator x mask x all phased operators) + Hypothesis over 5 operand kinds, masks, signs, rotation sequences vs dense U^dagger P U and the reference rule',
-            'Every rotation of every phased operator for N<=2 is compared with dense conjugation by exp(i pi/4 G); random cases to N=6 cover Pauli, list, polynomial, map and state operands, proper masks, undo by -G, four-fold periodicity and the rotation map; both back ends.'),
-    'C03': ('exhaustive sweep of the enumerated Clifford group (24 maps N=1; 11520 maps N=2, strided in the quick tier) x all phased operators with a constructed unitary witness + Hypothesis (masks, embeddings, homomorphism relations)',
-            'Each enumerated map is applied to all phased operators and compared with the reference homomorphic extension and with W P W^dagger for an explicitly constructed unitary W; random maps to N=6 from {H,S,CNOT} words; masked application = embedded map; T(PQ)=T(P)T(Q); both back ends.'),
-    'C04': ('exhaustive N=1 pairs/triples, every N=2 map x generating set + inverse, Hypothesis random triples N<=6, z2inv kernel on constructed invertible/singular matrices',
-            'Group laws checked against the reference compose/inverse (inverse via J M^T J, no shared elimination): action of compose, neutrality of the identity, two-sided inverses, (ab)^-1=b^-1 a^-1, associativity, operands unchanged and unshared; both back ends.'),
+    'C02': ('exhaustive N<=2 (generator x mask x all phased operators) + Hypothesis over 5 operand kinds, masks, signs, rotation sequences vs dense U^dagger P U and the reference rule; derived operands (results of library calls: views, slices, inverses)',
+            'Every rotation of every phased operator for N<=2 is compared with dense conjugation by exp(i pi/4 G); random cases to N=6 cover Pauli, list, polynomial, map and state operands, proper masks, undo by -G, four-fold periodicity and the rotation map; both back ends. Operands that are non-contiguous views or results of other calls are rotated too.'),
+    'C03': ('exhaustive sweep of the enumerated Clifford group (24 maps N=1; 11520 maps N=2, strided in the quick tier) x all phased operators with a constructed unitary witness + Hypothesis (masks, embeddings, homomorphism relations); derived operands; repeated embeds into one host map',
+            'Each enumerated map is applied to all phased operators and compared with the reference homomorphic extension and with W P W^dagger for an explicitly constructed unitary W; random maps to N=6 from {H,S,CNOT} words; masked application = embedded map; T(PQ)=T(P)T(Q); both back ends. Also operands that are views/slices/inverses and several embeds into the same host map.'),
+    'C04': ('exhaustive N=1 pairs/triples, every N=2 map x generating set + inverse, Hypothesis random triples N<=6, z2inv kernel on constructed invertible/singular matrices; histories of queries and in-place changes on one map object',
+            'Group laws checked against the reference compose/inverse (inverse via J M^T J, no shared elimination): action of compose, neutrality of the identity, two-sided inverses, (ab)^-1=b^-1 a^-1, associativity, operands unchanged and unshared; both back ends. Histories on one map object (inverse / compose / copy interleaved with rotate_by, transform_by, sign flips) catch stale caches.'),
     'C05': ('Hypothesis rule-based state machine over all public state-changing operations with harness-owned RNG seeds + one-step closure over every valid tableau N<=2 x finite operation alphabet',
             'The tableau invariant (commutation structure, Hermitian active phases, independence, 0<=r<=N, dense rho PSD/trace 1/rank 2^r for N<=3) is checked after every step of generated histories (<=30/80 steps, N<=4/6) and after every single operation from every one of the 34608 tableaux for N<=2 (thorough; strided in quick).'),
     'C06': ('Hypothesis (state, commuting signed observables, RNG seed) vs dense projection; seed-enumerated branch coverage over all N<=2 tableaux; group-level oracle for N<=8',
             'Returned outcomes must have positive Born probability, log2prob must equal log2 of the joint probability exactly, the post-state must equal the normalised projection (dense, N<=4; stabilizer group with signs, N<=8), repeat measurement must be deterministic; every outcome branch of every state for N<=2 is reached by re-seeding.'),
     'C07': ('Hypothesis (state, operand) vs dense traces: Hermitian lists, Paulis/monomials/polynomials with all phases, second states, all 2^N bit strings',
             'Expectation values, overlaps and bit-string probabilities are compared with Tr(rho O) computed from dense matrices (N<=5), including group elements scaled by i/-i and mixed states; receiver and arguments must be unchanged; both back ends.'),
-    'C08': ('Hypothesis states x all 2^N subsystems vs dense partial-trace entropy (N<=5) and the rank formula with own GF(2) elimination (N<=10); metamorphic regeneration and local-gate invariance; z2rank kernel',
-            'Every subsystem of every generated state (pure and mixed) is checked, as index list and as boolean mask; entropy must not depend on the generating set nor change under Clifford gates inside or outside the region; both back ends.'),
-    'C09': ('Hypothesis gate programs x 20 configurations (class x copy/compose x compile level) x 3 input kinds vs gate-by-gate application and the reference Clifford product; locality of single gates',
-            'The circuit action is compared with the ordered product of its gates for every configuration; layer packing is deliberately not asserted. N<=5, programs to 14 gates; torch: uncompiled CliffordCircuit.'),
-    'C10': ('Hypothesis gates / layers / circuits (same programs and configurations as C09): round trips in both orders, backward vs reference inverse, compiled backward map vs inverse of the compiled forward map',
-            'backward(forward(x)) = x and forward(backward(x)) = x on lists with all phases, polynomials and states of any rank, for lazily inverted and compiled maps; both back ends where the API exists.'),
-    'C11': ('exhaustive: gate tables vs tables written from the statement and re-derived from the unitaries; all placements N<=3(4) x all phased operators; closure of C(0..23) under compose/inverse; rejections',
-            'Finite tables are enumerated completely; placements in registers up to N=3 (4 thorough) act on every phased Pauli; the 24 indexed gates are valid, pairwise different and closed; invalid indices / qubit counts raise ValueError.'),
-    'C12': ('exhaustive N<=2 maps x ranks for to_state/to_map, Hypothesis N<=5; constructors vs the dense matrices their names say; stabilizer_state in 4 input formats incl. anticommuting lists; to_qutip',
-            'State-map duality, every constructor, the dense export and stabilizer_state (rank 2^(N-L) projector, ValueError iff anticommuting) are compared with dense matrices; both back ends.'),
+    'C08': ('Hypothesis states x all 2^N subsystems vs dense partial-trace entropy (N<=5) and the rank formula with own GF(2) elimination (N<=10); metamorphic regeneration and local-gate invariance; z2rank kernel; entropy along in-place evolution histories of one state object',
+            'Every subsystem of every generated state (pure and mixed) is checked, as index list and as boolean mask; entropy must not depend on the generating set nor change under Clifford gates inside or outside the region; both back ends. Entropy is re-queried along histories of in-place evolutions of one state object; all accepted subsystem argument forms.'),
+    'C09': ('Hypothesis gate programs x 20 configurations (class x copy/compose x compile level) x 3 input kinds vs gate-by-gate application and the reference Clifford product; locality of single gates; build histories (take / compile / compile-layers / copy interleaved), compose histories over several circuits, atheris fuzzing of circuit.py',
+            'The circuit action is compared with the ordered product of its gates for every configuration; layer packing is deliberately not asserted. N<=5, programs to 14 gates; torch: uncompiled CliffordCircuit. Also circuits that are compiled, extended and recompiled, accumulator-style compose histories where every circuit is re-checked, and a coverage-guided atheris campaign.'),
+    'C10': ('Hypothesis gates / layers / circuits (same programs and configurations as C09): round trips in both orders, backward vs reference inverse, compiled backward map vs inverse of the compiled forward map; build histories incl. legitimately stale compiled circuits; call sequences on one gate/layer/circuit object',
+            'backward(forward(x)) = x and forward(backward(x)) = x on lists with all phases, polynomials and states of any rank, for lazily inverted and compiled maps; both back ends where the API exists. Also circuits extended after compilation and arbitrary forward/backward call sequences on one object; generators given as Pauli, string or PauliMonomial.'),
+    'C11': ('exhaustive: gate tables vs tables written from the statement and re-derived from the unitaries; all placements N<=3(4) x all phased operators; closure of C(0..23) under compose/inverse; rejections; call sequences and copies of a used gate object',
+            'Finite tables are enumerated completely; placements in registers up to N=3 (4 thorough) act on every phased Pauli; the 24 indexed gates are valid, pairwise different and closed; invalid indices / qubit counts raise ValueError. The same gate object is run through forward/backward sequences and copied after use.'),
+    'C12': ('exhaustive N<=2 maps x ranks for to_state/to_map, Hypothesis N<=5; constructors vs the dense matrices their names say; stabilizer_state in 4 input formats incl. anticommuting lists; to_qutip; StabilizerState(gs, ps, r) call forms; Pauli expansion of states with up to 11 active stabilizers (group oracle)',
+            'State-map duality, every constructor, the dense export and stabilizer_state (rank 2^(N-L) projector, ValueError iff anticommuting) are compared with dense matrices; both back ends. Constructor call forms and the exported Pauli expansion for N up to 11.'),
     'C13': ('differential testing: one Hypothesis facet per shared deterministic operation (26 kernels, 37 class-level operations), same reference inputs to both packages, normalised outputs compared',
             'For each of 63 shared operations the two packages receive identical well-formed inputs (all phases, masks, ranks, N<=3) and must return the same strings, phases, ranks and numbers; an exception in exactly one package is a failure.'),
     'C14': ('Hypothesis Circuit programs with measurement layers and RNG seeds vs dense Kraus trajectory; MeasureLayer vs direct measure (differential, same seed); postselect vs Born rule; Circuit.backward with own/explicit/flipped/wrong-length records',
             'Recorded outcomes, log2prob increments and the final state are compared with the dense trajectory in program order (so a gate sliding across a measurement is detected); post-selection probability/state and the adjoint trajectory of backward, including the ValueError cases.'),
-    'C15': ('Hypothesis expression trees over Pauli/monomial/polynomial/list/number with dense evaluation as oracle; reduce(tol) with coefficients on both sides of the tolerance; trace; to_qutip',
-            'Any generated expression must evaluate to the same matrix as its dense evaluation, and so must its to_qutip export; reduce merges strings exactly and drops only sub-tolerance terms; both back ends (torch grammar without monomials).'),
-    'C16': ('seeded statistical sampling: validity of every sample (reference commutation test) + Pearson chi-square on exact cell models of the finite groups (24 / 720 / 11520 cells), binomial tests, independence of consecutive random-gate draws; rejection at p<1e-9',
-            'Validity for N<=8 incl. brick-wall/on-site/global circuits; uniformity decided exactly on N<=2 groups; deterministic for a given VERIF_SEED; both back ends.'),
-    'C17': ('Hypothesis method table (33 query / in-place operations) with bitwise before/after snapshots + copy histories over 9 object kinds with value equality, numpy.shares_memory and mutate-one-side/re-observe-the-other sequences',
-            'Queries must leave receiver and arguments byte-identical, in-place operations their arguments; copies must be equal in value, share no memory and stay independent under generated mutation histories; torch map/state copies.'),
+    'C15': ('Hypothesis expression trees over Pauli/monomial/polynomial/list/number with dense evaluation as oracle; reduce(tol) with coefficients on both sides of the tolerance; trace; to_qutip; polynomials with hundreds of terms against a dictionary model',
+            'Any generated expression must evaluate to the same matrix as its dense evaluation, and so must its to_qutip export; reduce merges strings exactly and drops only sub-tolerance terms; both back ends (torch grammar without monomials). Polynomials with 250-420 terms (reduce, sum, product) against a dictionary model.'),
+    'C16': ('seeded statistical sampling: validity of every sample (reference commutation test) + Pearson chi-square on exact cell models of the finite groups (24 / 720 / 11520 cells), binomial tests, independence of consecutive random-gate draws; rejection at p<1e-9; fairness of measurement coins on random mixed states',
+            'Validity for N<=8 incl. brick-wall/on-site/global circuits; uniformity decided exactly on N<=2 groups; deterministic for a given VERIF_SEED; both back ends. Coins of random outcomes on random mixed states are tested per configuration.'),
+    'C17': ('Hypothesis method table (33 query / in-place operations) with bitwise before/after snapshots + copy histories over 9 object kinds with value equality, numpy.shares_memory and mutate-one-side/re-observe-the-other sequences; copies of used objects; compose-then-extend',
+            'Queries must leave receiver and arguments byte-identical, in-place operations their arguments; copies must be equal in value, share no memory and stay independent under generated mutation histories; torch map/state copies. Copies are also taken from objects that were run or compiled before.'),
     'C18': ('exhaustive N<=3 (string x sign x target x causal flag) + Hypothesis N<=8 for diagonalize; states N<=5; SBRG on commuting families (exactness, spectrum) and arbitrary Hamiltonians (diagonal form); kernels on both back ends',
             'The returned circuit must map the operator to +-Z on the target (causal: only qubits >= i0 are touched, checked by action on all generators), the state to |0..0> and back; SBRG must be exact and spectrum-preserving for commuting input.'),
-    'C19': ('Hypothesis (state, sample size, seed) group-membership oracle + chi-square uniformity on small groups; density_matrix expansion vs dense rho; shadow snapshots from fixed and random circuits',
-            'Sampled operators must be group elements with the right sign; the expansion lists each element once with weight 2^-N; snapshots are valid pure states with non-zero overlap, stabilized up to sign by the back-evolved basis, and leave the base state byte-identical.'),
-    'C20': ('Hypothesis: one abstract operator rendered in 9 input formats, 8 list constructions, 4 kinds of index expression, 4 scalar factors; round trips through repr and tokenize',
-            'All renderings must parse to the reference encoding; print->parse and tokenize->parse must be the identity for all four phases; indexing must agree with plain list indexing; both back ends.'),
+    'C19': ('Hypothesis (state, sample size, seed) group-membership oracle + chi-square uniformity on small groups; density_matrix expansion vs dense rho; shadow snapshots from fixed and random circuits; group-level oracle for N up to 11 and binary_repr kernel; queries along evolution histories of one state object',
+            'Sampled operators must be group elements with the right sign; the expansion lists each element once with weight 2^-N; snapshots are valid pure states with non-zero overlap, stabilized up to sign by the back-evolved basis, and leave the base state byte-identical. Expansion of states with up to 11 active stabilizers; density_matrix / sample re-queried along in-place evolution histories.'),
+    'C20': ('Hypothesis: one abstract operator rendered in 9 input formats, 8 list constructions, 4 kinds of index expression, 4 scalar factors; round trips through repr and tokenize; derived operators must print/tokenize; parse - mutate - parse again; atheris fuzzing of the parser',
+            'All renderings must parse to the reference encoding; print->parse and tokenize->parse must be the identity for all four phases; indexing must agree with plain list indexing; both back ends. Operators derived by scalar factors must themselves print, tokenize and re-parse; a parsed object can be mutated without affecting later parses; coverage-guided atheris campaign on paulialg.py.'),
 }
 
 NOTE = ('Trusted base: numpy linear algebra for the dense oracle; harness/ref.py (validated against dense matrices by harness/selftest.py '
